@@ -53,6 +53,16 @@ def load_table(chk):
     table = json.loads((work / "literals_table.json").read_text())
     if not table.get("rows"):
         raise Inconclusive("Literals.tla exported an empty decision table")
+    # what-if: the rewrite rule as it was before the repair of FL4 (type of an elided composite literal read from
+    # node.Type only): TLC must still find the hide-gap, otherwise MustHide/Rewritten no longer bite
+    w2 = mkscratch("lit-tlc-whatif")
+    r2 = tlc("Literals", "Literals-whatif-elided.cfg", workdir=w2, workers=1, timeout=600, jvm=_jvm(w2))
+    chk.add_tlc(r2)
+    # (a constant-level invariant: TLC reports it as "The invariant of NoHideGap is equal to FALSE")
+    if r2.violated != "NoHideGap" and "invariant of NoHideGap is equal to FALSE" not in (r2.error or ""):
+        raise Inconclusive(f"what-if Literals-whatif-elided.cfg: expected NoHideGap to be violated, got violated={r2.violated} "
+                           f"error={r2.error}\n{r2.out[-1500:]}")
+    chk.extra["whatif_elided_rejected"] = True
     return table
 
 
